@@ -6,11 +6,11 @@ namespace ESV.Comp
 open ESV ESV.Beh
 
 /-- what is known about the (patched) else part `ep`; `trE k b` is what the source semantics builds for the else part -/
-structure ElseOK (cx : Cx) (E : Nat) (s : St) (env : Src.Env) (ep : List LItem) (trE : Nat → Src.B → Src.B × Nat) : Prop where
+structure ElseOK (cx : Cx) (E : Nat) (s : St) (env : Src.Env) (sE : St) (ep : List LItem) (trE : Nat → Src.B → Src.B × Nat) : Prop where
   nonone : NoNone ep
-  grow : ∀ k b, Grow b (trE k b).1
-  corr : ∀ r q, Placed cx.rs r q ep → ∀ k b, AgreeOn cx.N b (trE k b).1 → ∀ m j, ExitsOK cx m j s env →
-    R2 cx m j (target cx.rs E) k → R2 cx m j ⟨r, q⟩ (trE k b).2
+  grow : ∀ k b, Grow cx.Z b (trE k b).1
+  corr : ∀ r q, Placed cx.rs r q ep → ∀ k b, AgreeOn cx.N cx.Z b (trE k b).1 → ∀ m j, ExitsOK cx m j s env → NamedIn cx sE →
+    R2 cx m j (target cx.rs E) k → R2 cx m j ⟨r, q⟩ (trE k b).2 ∧ LabExport cx env m j b (trE k b).1
 
 theorem frontOf_nonone : ∀ (brs : List BrD), (∀ d ∈ brs, NoNone d.hdrs ∧ NoNone d.PB) → NoNone (frontOf brs) := by
   intro brs
@@ -52,15 +52,16 @@ theorem loneJump_snoc_label (l : List LItem) (i : Nat) (b : Bool) : loneJump (l 
   | cons x r => cases r <;> simp [loneJump]
 
 /-- the branches, the else part, the blocks of the positive branches, the end label -/
-theorem ite_assemble (cx : Cx) (fuel : Nat) (E : Nat) (s s' : St) (env : Src.Env) (he : PlainEnv env) (brs : List BrD)
+theorem ite_assemble (cx : Cx) (fuel : Nat) (E : Nat) (s s' : St) (env : Src.Env) (he : EnvOK cx env) (brs : List BrD)
     (hbr : ∀ d ∈ brs, BrOK cx fuel E s env d) (hnn : ∀ d ∈ brs, NoNone d.hdrs ∧ NoNone d.PB) (ep : List LItem)
-    (trE : Nat → Src.B → Src.B × Nat) (hel : ElseOK cx E s env ep trE) (hstk : SameStk s s') :
+    (trE : Nat → Src.B → Src.B × Nat) (sE : St) (hel : ElseOK cx E s env sE ep trE) (hstk : SameStk s s')
+    (hleB : ∀ d ∈ brs, NamedLe d.sB s') (hleE : NamedLe sE s') :
     PieceOK cx (frontOf brs ++ ep ++ backOf brs ++ [.label E false]) s s'
       (fun k b => Src.trBranches fuel [] env (srcBranches brs) k (trE k b).2 (trE k b).1) env := by
-  have hgrow : ∀ k b, Grow b (Src.trBranches fuel [] env (srcBranches brs) k (trE k b).2 (trE k b).1).1 := by
+  have hgrow : ∀ k b, Grow cx.Z b (Src.trBranches fuel [] env (srcBranches brs) k (trE k b).2 (trE k b).1).1 := by
     intro k b
     -- the chain lemma's growth part does not look at the placement; use it with a dummy placement-free argument
-    have : ∀ (brs' : List BrD), (∀ d ∈ brs', BrOK cx fuel E s env d) → ∀ k e b', Grow b' (Src.trBranches fuel [] env (srcBranches brs') k e b').1 := by
+    have : ∀ (brs' : List BrD), (∀ d ∈ brs', BrOK cx fuel E s env d) → ∀ k e b', Grow cx.Z b' (Src.trBranches fuel [] env (srcBranches brs') k e b').1 := by
       intro brs'
       induction brs' with
       | nil => intro _ k e b'; simp only [srcBranches]; rw [Src.trBranches]; exact Grow.refl _
@@ -76,7 +77,7 @@ theorem ite_assemble (cx : Cx) (fuel : Nat) (E : Nat) (s s' : St) (env : Src.Env
         generalize Src.trStmts fuel [] env (toSrcStmts d.body) k b1 = R2' at g2 ⊢
         obtain ⟨b2, be⟩ := R2'
         simp only at g1 g2 ⊢
-        have tc : ∀ (ts : List Ev) (x y : Nat) (b0 : Src.B), Grow b0 (Src.testChain [] ts x y b0).1 := by
+        have tc : ∀ (ts : List Ev) (x y : Nat) (b0 : Src.B), Grow cx.Z b0 (Src.testChain [] ts x y b0).1 := by
           intro ts
           induction ts with
           | nil => intro x y b0; simp only [Src.testChain]; exact Grow.refl _
@@ -88,7 +89,7 @@ theorem ite_assemble (cx : Cx) (fuel : Nat) (E : Nat) (s s' : St) (env : Src.Env
         · exact (g1.trans g2).trans (tc _ _ _ _)
         · exact (g1.trans g2).trans (tc _ _ _ _)
     exact (hel.grow k b).trans (this brs hbr k _ _)
-  refine ⟨hstk.1, hstk.2, lastNotCtx_snoc_label _ _ _, ?_, ?_, ?_, hgrow, ?_⟩
+  refine ⟨hstk.1, hstk.2, hstk.3, lastNotCtx_snoc_label _ _ _, ?_, ?_, ?_, hgrow, ?_⟩
   · intro x hx root e
     simp only [List.mem_append, List.mem_singleton] at hx
     rcases hx with ((hx | hx) | hx) | rfl
@@ -98,7 +99,7 @@ theorem ite_assemble (cx : Cx) (fuel : Nat) (E : Nat) (s s' : St) (env : Src.Env
     · cases e
   · intro h0; simp at h0
   · intro l hl; rw [loneJump_snoc_label] at hl; cases hl
-  · intro r i0 hp _ k b hag m j hex hcont
+  · intro r i0 hp _ k b hag m j hex hin hcont
     have hpF : Placed cx.rs r i0 (frontOf brs) := hp.left.left.left
     have hpE : Placed cx.rs r (i0 + (frontOf brs).length) ep := hp.left.left.right
     have hpBk : Placed cx.rs r (i0 + (frontOf brs ++ ep).length) (backOf brs) := hp.left.right
@@ -113,8 +114,10 @@ theorem ite_assemble (cx : Cx) (fuel : Nat) (E : Nat) (s s' : St) (env : Src.Env
       simpa [LPos.next, Nat.add_assoc] using this
     have gE := hel.grow k b
     obtain ⟨gC, cC⟩ := chain_corr cx fuel E s env he brs hbr r i0 hpF (backOf_placed brs _ hpBk) k (trE k b).2 (trE k b).1
-    have agE : AgreeOn cx.N b (trE k b).1 := hag.sub_grow (Grow.refl b) gC
+    have agE : AgreeOn cx.N cx.Z b (trE k b).1 := hag.sub_grow (Grow.refl b) gC
     have agC := hag.sub_grow gE (Grow.refl _)
-    exact cC agC m j hex hend (hel.corr r _ hpE k b agE m j hex hend)
+    have fE := hel.corr r _ hpE k b agE m j hex (hin.le hleE) hend
+    have fC := cC agC m j hex (fun d hd => hin.le (hleB d hd)) hend
+    exact ⟨fC.1 fE.1, LabExport.comp gE.len fE.2 fC.2⟩
 
 end ESV.Comp
